@@ -16,13 +16,20 @@ import Mathlib.Analysis.Calculus.Deriv.Abs
 import Mathlib.Tactic.Ring
 import Mathlib.Tactic.Linarith
 import Mathlib.Tactic.FieldSimp
+import Mathlib.Tactic.Positivity
+import Mathlib.Tactic.NormNum
+import Mathlib.Algebra.Order.Group.MinMax
+import Mathlib.Algebra.Order.Field.Basic
 
 open OdlModel.Functionals OdlModel.FunctionalsR
 open scoped RealInnerProductSpace
+open InnerProductSpace
 
 set_option linter.unusedSectionVars false
 
 variable {E : Type} [NormedAddCommGroup E] [InnerProductSpace ℝ E]
+
+/-! ### Lipschitz constants -/
 
 
 /-- `FunctionalLeftScalarMult`: the gradient `s·∇f` is `|s|·L`-Lipschitz (the value the
@@ -185,3 +192,366 @@ theorem C09.lip_right_scalar_abs_fails :
   intro h
   have := h 1 0
   norm_num at this
+
+/-! ### Gradients -/
+section grad
+variable [CompleteSpace E]
+
+/-- A Fréchet derivative represented by `g` is a gradient (helper). -/
+theorem C09.hasGradientAt_of_fderiv {f : E → ℝ} {f' : E →L[ℝ] ℝ} {g x : E}
+    (h : HasFDerivAt f f' x) (hg : ∀ d, f' d = ⟪g, d⟫) : HasGradientAt f g x := by
+  rw [hasGradientAt_iff_hasFDerivAt]
+  exact h.congr_fderiv (ContinuousLinearMap.ext fun d => by rw [hg, toDual_apply_apply])
+
+namespace OdlModel.C09
+
+/-- Side conditions under which the coded gradient of an expression is meaningful at `x`:
+the leaves' coded gradients are gradients at the points the evaluation visits, quotient
+denominators do not vanish, `FunctionalComp`'s operator is differentiable with
+`op.derivative(x).adjoint` the Hilbert adjoint of its derivative, pointwise multiplication
+by a vector is a symmetric bounded operator, `QuadraticForm`'s operator is bounded linear
+with `operator.adjoint` its adjoint.  Classes without `gradient` are excluded. -/
+def WF (o : VecOps E ℝ) : Fn E ℝ → E → Prop
+  | .coord b, x => HasGradientAt (o.cval b) (o.cgrad b x) x
+  | .l2sq, _ => True
+  | .const _, _ => True
+  | .indZero _, _ => False
+  | .lin _ _, _ => True
+  | .quad A At _ _ _ _ _, _ =>
+      ∃ A' : E →L[ℝ] E, (∀ v, A v = A' v) ∧ (∀ v, At v = ContinuousLinearMap.adjoint A' v)
+  | .lscal _ f, x => WF o f x
+  | .rscal f s, x => WF o f (o.smul s x)
+  | .rvec f v _, x =>
+      (∃ M : E →L[ℝ] E, (∀ z, o.mul v z = M z) ∧ ∀ a b, ⟪M a, b⟫ = ⟪a, M b⟫) ∧ WF o f (o.mul v x)
+  | .sum f g, x => WF o f x ∧ WF o g x
+  | .ssum f _, x => WF o f x
+  | .trans f t, x => WF o f (o.sub x t)
+  | .qp f _ _ _ _, x => WF o f x
+  | .prod f g, x => WF o f x ∧ WF o g x
+  | .quot f g, x => WF o f x ∧ WF o g x ∧ g.value o x ≠ 0
+  | .comp f op dAdj, x =>
+      (∃ D : E →L[ℝ] E, HasFDerivAt op D x ∧ ∀ y, dAdj x y = ContinuousLinearMap.adjoint D y) ∧
+        WF o f (op x)
+  | .breg f _ _, x => WF o f x
+  | .infconv _ _, _ => False
+  | .menv _ _ _, _ => False
+
+end OdlModel.C09
+open OdlModel.C09
+
+/-- **The coded gradient is the gradient of the coded values, for every functional
+expression** (all depths; every real Hilbert space `E`, so every weighting, discretisation and
+product structure): under the side conditions `WF`, `t.grad x` — built exactly as the
+`gradient` properties of `functional.py` build it (chain rule through the adjoint, `s·∇f(s·)`,
+`v·∇f(v·)`, Leibniz and quotient rules, `∇f + 2a·x + u`, `∇f − q`, `(A + A*)x + b`, `2x`) — is
+the gradient, w.r.t. the functional's own inner product, of `z ↦ t.value z`. -/
+theorem C09.grad_sound (μ : E → E → E) (cv : Builtin ℝ → E → ℝ) (cd : Builtin ℝ → E → Bool)
+    (cg : Builtin ℝ → E → E) (t : Fn E ℝ) (x : E) (h : WF (eOps μ cv cd cg) t x) :
+    HasGradientAt (fun z => t.value (eOps μ cv cd cg) z) (t.grad (eOps μ cv cd cg) x) x := by
+  induction t generalizing x with
+  | coord b => exact h
+  | l2sq =>
+      have := HasFDerivAt.inner ℝ (hasFDerivAt_id x) (hasFDerivAt_id x)
+      refine C09.hasGradientAt_of_fderiv this ?_
+      intro d
+      simp [Fn.grad, eOps, two, fderivInnerCLM_apply, inner_smul_left, inner_add_left,
+        real_inner_comm]
+      ring
+  | const c =>
+      refine C09.hasGradientAt_of_fderiv (hasFDerivAt_const c x) ?_
+      intro d; simp [Fn.grad, eOps]
+  | indZero c => exact h.elim
+  | lin b c =>
+      have := ((innerSL ℝ b).hasFDerivAt (x := x)).add_const c
+      refine C09.hasGradientAt_of_fderiv this ?_
+      intro d; simp [Fn.grad]
+  | quad A At Ainv AinvT hasB b c =>
+      obtain ⟨A', hA, hAt⟩ := h
+      have hAf : A = fun v => A' v := funext hA
+      have h1 : HasFDerivAt (fun z : E => A' z + b) A' x := (A'.hasFDerivAt).add_const b
+      have h2 : HasFDerivAt (fun z : E => A' z) A' x := A'.hasFDerivAt
+      by_cases hb : hasB = true
+      · have := (HasFDerivAt.inner ℝ (hasFDerivAt_id x) h1).add_const c
+        subst hAf
+        simp only [Fn.value, Fn.grad, hb, if_true, eOps]
+        refine C09.hasGradientAt_of_fderiv this ?_
+        intro d
+        simp [fderivInnerCLM_apply, hAt, inner_add_left, inner_add_right,
+          ContinuousLinearMap.adjoint_inner_left, real_inner_comm]
+        ring
+      · have := (HasFDerivAt.inner ℝ (hasFDerivAt_id x) h2).add_const c
+        subst hAf
+        simp only [Fn.value, Fn.grad, hb, eOps]
+        refine C09.hasGradientAt_of_fderiv this ?_
+        intro d
+        simp [fderivInnerCLM_apply, hAt, inner_add_left, inner_add_right,
+          ContinuousLinearMap.adjoint_inner_left, real_inner_comm]
+        ring
+  | lscal s f ih =>
+      have := (ih x h).hasFDerivAt.const_mul s
+      refine C09.hasGradientAt_of_fderiv this ?_
+      intro d; simp [Fn.grad, eOps, inner_smul_left]
+  | rscal f s ih =>
+      have h1 := (ih _ h).hasFDerivAt
+      have h2 : HasFDerivAt (fun z : E => s • z) (s • ContinuousLinearMap.id ℝ E) x :=
+        (hasFDerivAt_id x).const_smul s
+      have := HasFDerivAt.comp x h1 h2
+      refine C09.hasGradientAt_of_fderiv this ?_
+      intro d; simp [Fn.grad, eOps, inner_smul_left, inner_smul_right]
+  | rvec f v vinv ih =>
+      obtain ⟨⟨M, hM, hsym⟩, hf⟩ := h
+      have h1 := (ih _ hf).hasFDerivAt
+      have hMf : (fun z => (eOps μ cv cd cg).mul v z) = fun z => M z := funext hM
+      have h2 : HasFDerivAt (fun z => (eOps μ cv cd cg).mul v z) M x := by
+        rw [hMf]; exact M.hasFDerivAt
+      have := HasFDerivAt.comp x h1 h2
+      refine C09.hasGradientAt_of_fderiv this ?_
+      intro d
+      simp only [Fn.grad, ContinuousLinearMap.comp_apply, toDual_apply_apply]
+      rw [hM, hM, hsym]
+  | sum f g ihf ihg =>
+      have := (ihf x h.1).hasFDerivAt.add (ihg x h.2).hasFDerivAt
+      refine C09.hasGradientAt_of_fderiv this ?_
+      intro d; simp [Fn.grad, eOps, inner_add_left]
+  | ssum f c ih =>
+      have := (ih x h).hasFDerivAt.add_const c
+      refine C09.hasGradientAt_of_fderiv this ?_
+      intro d; simp [Fn.grad, eOps]
+  | trans f t ih =>
+      have h1 := (ih _ h).hasFDerivAt
+      have h2 : HasFDerivAt (fun z : E => z - t) (ContinuousLinearMap.id ℝ E) x :=
+        (hasFDerivAt_id x).sub_const t
+      have := HasFDerivAt.comp x h1 h2
+      refine C09.hasGradientAt_of_fderiv this ?_
+      intro d; simp [Fn.grad, eOps]
+  | qp f a hasU u c ih =>
+      have h1 := (ih x h).hasFDerivAt
+      have h2 := (HasFDerivAt.inner ℝ (hasFDerivAt_id x) (hasFDerivAt_id x)).const_mul a
+      have h3 := HasFDerivAt.inner ℝ (hasFDerivAt_id x) (hasFDerivAt_const u x)
+      have := ((h1.add h2).add h3).add_const c
+      refine C09.hasGradientAt_of_fderiv this ?_
+      intro d
+      simp [Fn.grad, eOps, two, fderivInnerCLM_apply, inner_add_left, inner_smul_left,
+        real_inner_comm]
+      ring
+  | prod f g ihf ihg =>
+      have := (ihf x h.1).hasFDerivAt.mul (ihg x h.2).hasFDerivAt
+      refine C09.hasGradientAt_of_fderiv this ?_
+      intro d
+      simp [Fn.grad, eOps, inner_add_left, inner_smul_left]
+      ring
+  | quot f g ihf ihg =>
+      obtain ⟨hf, hg, hne⟩ := h
+      have h1 := (ihf x hf).hasFDerivAt
+      have h2 := (ihg x hg).hasFDerivAt
+      have h3 := (hasDerivAt_inv hne).comp_hasFDerivAt x h2
+      have := h1.mul h3
+      have hfun : (fun z => Fn.value (eOps μ cv cd cg) (f.quot g) z) =
+          fun z => Fn.value (eOps μ cv cd cg) f z * ((fun y => y⁻¹) ∘ fun z => Fn.value (eOps μ cv cd cg) g z) z := by
+        funext z; simp [Fn.value, div_eq_mul_inv]
+      rw [hfun]
+      refine C09.hasGradientAt_of_fderiv this ?_
+      intro d
+      simp [Fn.grad, eOps, inner_add_left, inner_smul_left]
+      field_simp
+      ring
+  | comp f op dAdj ih =>
+      obtain ⟨⟨D, hD, hadj⟩, hf⟩ := h
+      have h1 := (ih _ hf).hasFDerivAt
+      have := HasFDerivAt.comp x h1 hD
+      refine C09.hasGradientAt_of_fderiv this ?_
+      intro d
+      simp [Fn.grad, hadj, ContinuousLinearMap.adjoint_inner_left]
+  | breg f p q ih =>
+      have h1 := (ih x h).hasFDerivAt
+      have h2 := (HasFDerivAt.inner ℝ (hasFDerivAt_id x) (hasFDerivAt_id x)).const_mul (0 : ℝ)
+      have h3 := HasFDerivAt.inner ℝ (hasFDerivAt_id x)
+        (hasFDerivAt_const ((eOps μ cv cd cg).smul (-1) q) x)
+      have := ((h1.add h2).add h3).add_const
+        (-(f.value (eOps μ cv cd cg) p) + (eOps μ cv cd cg).inner q p)
+      refine C09.hasGradientAt_of_fderiv this ?_
+      intro d
+      simp [Fn.grad, eOps, fderivInnerCLM_apply, inner_sub_left, real_inner_comm]
+      ring
+  | infconv f g _ _ => exact h.elim
+  | menv f P σ _ => exact h.elim
+
+/-- `f.derivative(x)(d)` (coded as `d.inner(f.gradient(x))`) is the Fréchet derivative of the
+values applied to `d`. -/
+theorem C09.derivative_eq_inner_grad (μ : E → E → E) (cv : Builtin ℝ → E → ℝ)
+    (cd : Builtin ℝ → E → Bool) (cg : Builtin ℝ → E → E) (t : Fn E ℝ) (x d : E)
+    (h : WF (eOps μ cv cd cg) t x) :
+    fderiv ℝ (fun z => t.value (eOps μ cv cd cg) z) x d = t.deriv (eOps μ cv cd cg) x d := by
+  rw [(C09.grad_sound μ cv cd cg t x h).fderiv_apply]
+  simp [Fn.deriv, eOps, real_inner_comm]
+
+/-- Chain rule of `FunctionalComp` between different spaces: the coded gradient
+`op.derivative(x).adjoint(f.gradient(op(x)))` is the gradient of `f ∘ op`. -/
+theorem C09.grad_comp {F : Type} [NormedAddCommGroup F] [InnerProductSpace ℝ F] [CompleteSpace F]
+    {op : E → F} {D : E →L[ℝ] F} {f : F → ℝ} {g : F} {x : E}
+    (hop : HasFDerivAt op D x) (hf : HasGradientAt f g (op x)) :
+    HasGradientAt (f ∘ op) (ContinuousLinearMap.adjoint D g) x := by
+  have := HasFDerivAt.comp x hf.hasFDerivAt hop
+  refine C09.hasGradientAt_of_fderiv this ?_
+  intro d
+  simp [ContinuousLinearMap.adjoint_inner_left]
+
+/-- A quadratic remainder bound gives the gradient (helper for the envelope). -/
+theorem C09.hasGradientAt_of_sq_bound {f : E → ℝ} {g x : E} {C : ℝ}
+    (hb : ∀ z, |f z - f x - ⟪g, z - x⟫| ≤ C * ‖z - x‖ ^ 2) : HasGradientAt f g x := by
+  have hC : 0 ≤ C ∨ C < 0 := le_or_gt 0 C
+  rw [hasGradientAt_iff_hasFDerivAt, hasFDerivAt_iff_isLittleO_nhds_zero, Asymptotics.isLittleO_iff]
+  intro c hc
+  have hpos : 0 < c / (|C| + 1) := by positivity
+  filter_upwards [Metric.ball_mem_nhds (0 : E) hpos] with h hh
+  have hh' : ‖h‖ < c / (|C| + 1) := by simpa using hh
+  have := hb (x + h)
+  simp only [add_sub_cancel_left] at this
+  rw [toDual_apply_apply, Real.norm_eq_abs]
+  refine this.trans ?_
+  have h1 : C * ‖h‖ ^ 2 ≤ (|C| + 1) * ‖h‖ * ‖h‖ := by
+    have : C ≤ |C| + 1 := by linarith [le_abs_self C]
+    nlinarith [norm_nonneg h, sq_nonneg ‖h‖]
+  have h2 : (|C| + 1) * ‖h‖ ≤ c := by
+    have := (lt_div_iff₀ (by positivity : (0 : ℝ) < |C| + 1)).mp hh'
+    linarith
+  calc C * ‖h‖ ^ 2 ≤ (|C| + 1) * ‖h‖ * ‖h‖ := h1
+    _ ≤ c * ‖h‖ := mul_le_mul_of_nonneg_right h2 (norm_nonneg h)
+
+/-- `MoreauEnvelope.gradient`: if `P = prox_{σ f}` in the resolvent sense (`(x − P x)/σ` is a
+subgradient of `f` at `P x`, for every `x`), then the coded gradient `x/σ − P(x)/σ` is the
+gradient of the envelope `env(z) = f(P z) + ‖z − P z‖²/(2σ)`. -/
+theorem C09.grad_moreau_envelope {f : E → ℝ} {σ : ℝ} (hσ : 0 < σ) (P : E → E)
+    (hP : ∀ x z, f (P x) + ⟪(1 / σ) • (x - P x), z - P x⟫ ≤ f z) (x : E) :
+    HasGradientAt (fun z => f (P z) + 1 / (2 * σ) * ‖z - P z‖ ^ 2)
+      ((1 / σ) • x - (1 / σ) • P x) x := by
+  refine C09.hasGradientAt_of_sq_bound (C := 1 / (2 * σ)) ?_
+  intro z
+  have hup := hP z (P x)
+  have hlo := hP x (P z)
+  have hk : 0 < 1 / σ := by positivity
+  have h2σ : 1 / (2 * σ) = (1 / σ) / 2 := by field_simp
+  rw [h2σ]
+  generalize 1 / σ = k at *
+  have hw : P z - P x = ((z - x) - (z - P z)) + (x - P x) := by abel
+  have hw' : P x - P z = -(((z - x) - (z - P z)) + (x - P x)) := by abel
+  rw [hw'] at hup
+  rw [hw] at hlo
+  have hg : k • x - k • P x = k • (x - P x) := by rw [smul_sub]
+  rw [hg]
+  generalize x - P x = a at *
+  generalize z - P z = b at *
+  generalize z - x = w at *
+  have n1 := norm_sub_sq_real a b
+  have n2 := norm_add_sq_real (w - b) a
+  have n3 := norm_sub_sq_real w b
+  have c1 : ⟪b, a⟫ = ⟪a, b⟫ := real_inner_comm _ _
+  have c2 : ⟪w, a⟫ = ⟪a, w⟫ := real_inner_comm _ _
+  have c3 : ⟪w, b⟫ = ⟪b, w⟫ := real_inner_comm _ _
+  simp only [real_inner_smul_left, inner_neg_right, inner_add_right, inner_sub_right,
+    inner_sub_left, real_inner_self_eq_norm_sq, c1, c2, c3] at hup hlo n2 ⊢
+  have p1 := mul_nonneg hk.le (sq_nonneg ‖a - b‖)
+  have p2 := mul_nonneg hk.le (sq_nonneg ‖w - b + a‖)
+  rw [n1] at p1
+  rw [n2, n3] at p2
+  rw [abs_le]
+  constructor <;> nlinarith [p1, p2, hup, hlo]
+
+/-- Non-vacuity of `grad_sound`: on `E = ℝ` the quotient
+`(‖x‖² + 2‖x‖² + ⟨x,3⟩ + 1) / (‖x‖² + 1)` satisfies `WF` at `x = 1`. -/
+example : HasGradientAt
+    (fun z : ℝ => (Fn.quot (.qp .l2sq 2 true 3 1) (.ssum .l2sq 1) : Fn ℝ ℝ).value
+      (eOps (· * ·) (fun _ _ => 0) (fun _ _ => true) (fun _ _ => 0)) z)
+    ((Fn.quot (.qp .l2sq 2 true 3 1) (.ssum .l2sq 1) : Fn ℝ ℝ).grad
+      (eOps (· * ·) (fun _ _ => 0) (fun _ _ => true) (fun _ _ => 0)) 1) 1 := by
+  apply C09.grad_sound
+  refine ⟨trivial, trivial, ?_⟩
+  simp [Fn.value, eOps]
+end grad
+
+/-! ### Concrete built-ins on weighted lists (any ordered field, all lengths) -/
+section lists
+variable {K : Type} [Field K] [LinearOrder K] [IsStrictOrderedRing K]
+
+/-- `Huber.gradient` entry-wise (`t/γ`, overwritten by `t/|t|` where `|t| ≥ γ`) is the clamp of
+`t` to `[-γ, γ]` divided by `γ`. -/
+theorem C09.huberGrad1_clamp (γ t : K) (hγ : 0 < γ) :
+    huberGrad1 γ t = max (-γ) (min γ t) / γ := by
+  unfold huberGrad1 absK
+  have hne : γ ≠ 0 := ne_of_gt hγ
+  split_ifs with h1 h2 h2
+  · -- t < 0, γ ≤ -t
+    have : min γ t = t := min_eq_right (by linarith)
+    rw [this, max_eq_left (by linarith)]
+    have ht0 : t ≠ 0 := by intro h; rw [h] at h1; exact lt_irrefl _ h1
+    rw [div_neg, div_self ht0, neg_div, div_self hne]
+  · -- t < 0, -t < γ
+    have : min γ t = t := min_eq_right (by linarith)
+    rw [this, max_eq_right (by linarith [not_le.mp h2])]
+  · -- 0 ≤ t, γ ≤ t
+    have ht : 0 ≤ t := le_of_not_gt h1
+    have : min γ t = γ := min_eq_left h2
+    rw [this, max_eq_right (by linarith)]
+    have ht0 : t ≠ 0 := by intro h; rw [h] at h2; exact absurd h2 (not_le.mpr hγ)
+    rw [div_self ht0, div_self hne]
+  · have ht : 0 ≤ t := le_of_not_gt h1
+    have : min γ t = t := min_eq_right (by linarith [not_le.mp h2])
+    rw [this, max_eq_right (by linarith)]
+
+/-- One entry of `Huber.gradient` is `1/γ`-Lipschitz (any ordered field). -/
+theorem C09.huber_grad1_lipschitz (γ s t : K) (hγ : 0 < γ) :
+    (huberGrad1 γ s - huberGrad1 γ t) ^ 2 ≤ (1 / γ) ^ 2 * (s - t) ^ 2 := by
+  rw [C09.huberGrad1_clamp γ s hγ, C09.huberGrad1_clamp γ t hγ, ← sub_div, div_pow, one_div, inv_pow,
+    inv_mul_eq_div]
+  have hγ2 : 0 < γ ^ 2 := by positivity
+  rw [div_le_div_iff_of_pos_right hγ2]
+  have h1 : |max (-γ) (min γ s) - max (-γ) (min γ t)| ≤ |s - t| := by
+    have a := abs_max_sub_max_le_abs (min γ s) (min γ t) (-γ)
+    have b : |min γ s - min γ t| ≤ |s - t| := by
+      have := abs_min_sub_min_le_max γ s γ t
+      simpa using this
+    rw [max_comm (-γ) (min γ s), max_comm (-γ) (min γ t)]
+    exact a.trans b
+  exact sq_le_sq.mpr h1
+
+/-- `Huber.grad_lipschitz = 1/γ` is valid on every weighted list space (all lengths, all
+non-negative weights): `‖∇H x − ∇H y‖²_w ≤ (1/γ)²·‖x − y‖²_w` for the coded gradient. -/
+theorem C09.huber_lipschitz (γ : K) (hγ : 0 < γ) (w x y : List K) (hw : ∀ a ∈ w, 0 ≤ a) :
+    (listOps w).inner
+        ((listOps w).sub ((listOps w).cgrad (.huber γ) x) ((listOps w).cgrad (.huber γ) y))
+        ((listOps w).sub ((listOps w).cgrad (.huber γ) x) ((listOps w).cgrad (.huber γ) y))
+      ≤ (1 / γ) ^ 2 * (listOps w).inner ((listOps w).sub x y) ((listOps w).sub x y) := by
+  simp only [listOps]
+  induction w generalizing x y with
+  | nil => simp [innerW]
+  | cons a ws ih =>
+      cases x with
+      | nil => simp [innerW]
+      | cons x0 xs =>
+        cases y with
+        | nil => simp [innerW]
+        | cons y0 ys =>
+          have ha : 0 ≤ a := hw a (by simp)
+          have hrest := ih xs ys (fun b hb => hw b (by simp [hb]))
+          have h0 := C09.huber_grad1_lipschitz γ x0 y0 hγ
+          simp only [List.map_cons, List.zipWith_cons_cons, innerW]
+          have : a * (huberGrad1 γ x0 - huberGrad1 γ y0) * (huberGrad1 γ x0 - huberGrad1 γ y0)
+              ≤ (1 / γ) ^ 2 * (a * (x0 - y0) * (x0 - y0)) := by
+            have := mul_le_mul_of_nonneg_left h0 ha
+            calc a * (huberGrad1 γ x0 - huberGrad1 γ y0) * (huberGrad1 γ x0 - huberGrad1 γ y0)
+                = a * (huberGrad1 γ x0 - huberGrad1 γ y0) ^ 2 := by ring
+              _ ≤ a * ((1 / γ) ^ 2 * (x0 - y0) ^ 2) := this
+              _ = (1 / γ) ^ 2 * (a * (x0 - y0) * (x0 - y0)) := by ring
+          rw [mul_add]
+          exact add_le_add this hrest
+
+/-- Non-vacuity: weights `[1/4, 1/4]` (`uniform_discr`, cell volume 1/4), `γ = 1/2`. -/
+example : (listOps [1/4, 1/4]).inner
+      ((listOps [(1/4 : ℚ), 1/4]).sub ((listOps [1/4, 1/4]).cgrad (.huber (1/2)) [1/4, 3])
+        ((listOps [1/4, 1/4]).cgrad (.huber (1/2)) [0, -1]))
+      ((listOps [(1/4 : ℚ), 1/4]).sub ((listOps [1/4, 1/4]).cgrad (.huber (1/2)) [1/4, 3])
+        ((listOps [1/4, 1/4]).cgrad (.huber (1/2)) [0, -1]))
+    ≤ (1 / (1/2 : ℚ)) ^ 2 * (listOps [1/4, 1/4]).inner
+      ((listOps [(1/4 : ℚ), 1/4]).sub [1/4, 3] [0, -1]) ((listOps [(1/4 : ℚ), 1/4]).sub [1/4, 3] [0, -1]) :=
+  C09.huber_lipschitz (1/2) (by norm_num) _ _ _ (by intro a ha; simp at ha; rcases ha with rfl | rfl <;> norm_num)
+end lists
